@@ -199,3 +199,63 @@ def run(ctx):
         ctx.ob('R19.3', 'severity:' + sev, ok,
                'severity flag %s %s the cache key' % (sev, 'is part of' if ok else 'is NOT part of'),
                '%s:%d' % (calc['file'], calc['line']))
+
+    # R19.4 boolean option flags are encoded injectively: position-coded (cond ? 'x' : 'y' with two different literals of
+    # equal length, always appended) or as the whole mask.  A flag that is appended only when set must use a literal marker
+    # that no other conditional append uses; a computed marker (e.g. first letter of severityToString) cannot be shown unique.
+    ctx.rule('R19.4', 'option flags in the cache key are position-coded or use pairwise distinct literal markers')
+    from .common.facts import walk_parents, strip_all, call_args
+    cond_markers = []
+    nflags = 0
+    for x, parents in walk_parents(body):
+        if x.get('k') == 'CXXMemberCallExpr' and 'SimpleEnableGroup' in (x.get('fn') or '') and (x.get('fn') or '').endswith('::isEnabled'):
+            nflags += 1
+            # nearest enclosing conditional construct
+            ok = None
+            what = ''
+            for pnode in reversed(parents):
+                pk = pnode.get('k')
+                if pk in ('ImplicitCastExpr', 'UnaryOperator', 'ParenExpr'):
+                    continue
+                if pk == 'BinaryOperator' and pnode.get('op') in ('&&', '||'):
+                    continue
+                if pk == 'ConditionalOperator':
+                    a, b = strip_all(pnode['c'][1]), strip_all(pnode['c'][2])
+                    lits = [n_.get('v') for n_ in (a, b) if n_ is not None and n_.get('k') in ('CharacterLiteral', 'StringLiteral')]
+                    if len(lits) == 2 and lits[0] != lits[1] and len(str(lits[0])) == len(str(lits[1])) if all(isinstance(v, str) for v in lits) else (len(lits) == 2 and lits[0] != lits[1]):
+                        ok = True
+                        what = 'position-coded (two distinct literals)'
+                    else:
+                        ok = False
+                        what = 'conditional with non-literal or identical branches'
+                    break
+                if pk == 'IfStmt':
+                    # conditional append: collect what is appended in the then-branch
+                    apps = []
+                    for y in walk(pnode.get('then') or {}):
+                        if y.get('k') == 'CXXOperatorCallExpr' and y.get('op') == '<<':
+                            apps.append(strip_all(y['c'][2]) if len(y.get('c', ())) > 2 else None)
+                    lit = [a_.get('v') for a_ in apps if a_ is not None and a_.get('k') in ('CharacterLiteral', 'StringLiteral')]
+                    if apps and len(lit) == len(apps):
+                        cond_markers.append((tuple(lit), x))
+                        ok = True
+                        what = 'conditional append of literal marker %r' % (lit,)
+                    else:
+                        ok = False
+                        what = 'appended only when the flag is set, with a marker computed at run time: two different flag sets can produce the same key text'
+                    break
+                if pk in ('CompoundStmt', 'ForStmt', 'CXXForRangeStmt'):
+                    break
+            if ok is None:
+                continue
+            ctx.ob('R19.4', 'flag-encoding#%d' % nflags, ok,
+                   ('flag test at line %s is %s' % (x['l'], what)) if ok else
+                   ('flag test at line %s: %s' % (x['l'], what)), '%s:%s' % (calc['file'], x['l']))
+    seen_m = {}
+    for lit, x in cond_markers:
+        if lit in seen_m:
+            ctx.ob('R19.4', 'flag-marker-unique:%s' % (lit,), False,
+                   'two conditional appends use the same marker %r (lines %s and %s): the flag sets {A} and {B} give the same key' % (lit, seen_m[lit]['l'], x['l']),
+                   '%s:%s' % (calc['file'], x['l']))
+        seen_m[lit] = x
+    ctx.counts['flag tests in calculateHash'] = nflags
